@@ -576,10 +576,6 @@ func (app *Application) EndBlock(ctx *api.Context) (types.ResponseEndBlock, erro
 		return types.ResponseEndBlock{}, fmt.Errorf("consensus/governance: failed to compute validators escrow: %w", err)
 	}
 
-	if totalVotingStake.IsZero() {
-		return types.ResponseEndBlock{}, fmt.Errorf("consensus/governance: total voting stake is zero")
-	}
-
 	for _, proposal := range closingProposals {
 		ctx.Logger().Debug("closing proposal",
 			"proposal", proposal,
